@@ -101,7 +101,14 @@ def cases(tier: str, seed: int) -> List[Dict[str, Any]]:
             out.append({'part': 'O', 'act': a, 'file': 'from file', 'cli': 'from cli'})
         if a['kind'] == '_AppendAction' and a['dest'] != 'privacy':
             out.append({'part': 'O', 'act': a, 'file': ['f1', 'f2'], 'cli': ['c1']})
-    for key in ['nosuch', 'projectname', 'project_name', 'Project-Name', 'verbosity', 'x y', 'sourcepath', 'no-such-option', 'docformat2', 'é']:
+    # names that are not configuration keys, including the letters of the short flags (-q, -v, -W, -c, -h ...), which the file
+    # front door does not offer, and destination names that differ from the option name
+    from pydoctor.options import get_parser
+    p = get_parser()
+    known = {k for a in p._actions for k in p.get_possible_config_keys(a)}
+    short = sorted({fl[1:] for a in p._actions for fl in a.option_strings if fl.startswith('-') and not fl.startswith('--')} - known)
+    dests = sorted({a.dest for a in p._actions if a.dest and a.dest not in known and a.dest != 'help'})[:6]
+    for key in ['nosuch', 'projectname', 'project_name', 'Project-Name', 'verbosity', 'x y', 'sourcepath', 'no-such-option', 'docformat2', 'é'] + short + dests:
         out.append({'part': 'U', 'key': key})
     out.append({'part': 'P'})
     # quoting
